@@ -106,6 +106,19 @@ def check_one(t, src, idx_err_expected, budget=5):
                     f"result is not a valid AST ({type(ex).__name__}: {str(ex)[:80]})", src, None,
                     _safe_dump(r), replay)
         return
+    # the induction hypothesis of the deductive proof (spec qs, executed natively): a query of
+    # query shape stays of query shape — a run-time cross-check of the proof's model and of the
+    # parts the proof only assumes (visit_Lambda / generic_visit / make_args_unique)
+    try:
+        import qshape
+        t.contract("hypothesis (native): qs(q) implies qs(visit(q))")
+        if qshape.qs(q) and not qshape.qs(r):
+            t.violation("simplify_chained_calls.visit:hypothesis qs(result)",
+                        "the result is not of query shape although the input is", src, None,
+                        text, replay)
+            return
+    except RecursionError:
+        pass
     t.contract("sem(visit(q)) == sem(q) where defined")
     for i, d in enumerate(sc.DATA):
         env = {"ds": d, "i": 0, "k": "a"}
